@@ -1,3 +1,4 @@
+import Mrpro.Lemmas.OpMatrixL
 import Mrpro.Model.Ops
 import Mrpro.Lemmas.Basic
 import Mrpro.Lemmas.Adjoint
@@ -89,5 +90,16 @@ theorem applyAlong_adjoint (outer inner n m : Nat) (op opH : (Nat → K) → (Na
 example : ∃ σ τ : Nat → Nat, (∀ i, i < 3 → σ i < 3) ∧ (∀ i, i < 3 → τ (σ i) = i) ∧ σ 0 ≠ 0 :=
   ⟨fun i => (i + 1) % 3, fun i => (i + 2) % 3, by intro i _; show (i + 1) % 3 < 3; omega,
     by intro i h; show ((i + 1) % 3 + 2) % 3 = i; omega, by decide⟩
+
+/-- adjoint identity for operator matrices (matrix stacking, `&`, `|`, `@`, `+`, scaling, `.H`, indexing of matrices of operators):
+for every program the library accepts, `Σᵢ ⟨(A x)ᵢ, yᵢ⟩ = Σⱼ ⟨xⱼ, (Aᴴ y)ⱼ⟩`, given the identity for the leaf operators -/
+theorem opmatrix_adjoint_identity {K : Type} [CommRing K] [StarRing K] [DecidableEq K] (n : Nat)
+    (Lf La : Nat → (Nat → K) → (Nat → K)) (hf : ∀ i, M.IsLin' (Lf i)) (ha : ∀ i, M.IsLin' (La i))
+    (hadj : ∀ i x y, M.inner n (Lf i x) y = M.inner n x (La i y))
+    (e : M.MExpr K) (A : M.OpMat K) (h : M.buildM e = some A) (xs ys us vs : List (Nat → K))
+    (hx : xs.length = A.ncols) (hy : ys.length = A.nrows) (hnd : A.ncols ≠ 0 ∨ A.nrows = 0)
+    (hu : A.fwd Lf La xs = some us) (hv : A.adj Lf La ys = some vs) :
+    M.innerL n us ys = M.innerL n xs vs :=
+  M.buildM_adjoint Lf La n hadj hf ha e A h xs ys us vs hx hy hnd hu hv
 
 end C01
